@@ -4,8 +4,9 @@ or (None, None, None)."""
 
 
 class StubBarcodeParser:
-    def __init__(self, accept=True, index=17, index_accept=True, index_alias='idx'):
+    def __init__(self, accept=True, index=17, index_accept=True, index_alias='idx', verdicts=None):
         self.accept, self.index, self.index_accept, self.index_alias = accept, index, index_accept, index_alias
+        self.verdicts = verdicts or {}   # alias -> bool, overrides `accept`
         self.calls = []
 
     def getIndexCorrectedBarcodeAndHammingDistance(self, barcode, alias, try_lazy_load_pending=True):
@@ -14,12 +15,13 @@ class StubBarcodeParser:
             if self.index_accept:
                 return 1, barcode, 0
             return None, None, None
-        if self.accept:
+        if self.verdicts.get(alias, self.accept):
             return self.index, barcode, 0
         return None, None, None
 
     def __getitem__(self, alias):
-        return {}
+        # barcode -> index map of an alias (TCHIC builds its bleed-through table from parser['celseq2'])
+        return {'AGTGTGTC': 17, 'CACACAGT': 1, 'GTGTGAGA': 2, 'TCTCTCAC': 3, 'ACACTCTG': self.index}
 
     def __contains__(self, alias):
         return True
